@@ -17,14 +17,18 @@ Inductive fname :=
 | NDeclareOk | NBindOk | NQosOk | NSelectOk | NTxOk      (* plain RPC replies *)
 | NConsumeOk | NCancelOk | NGetOk | NGetEmpty
 | NHeader | NBody | NDeliver | NReturn | NAck | NNack | NCancel
-| NChClose | NChCloseOk | NChOpenOk | NFlow | NUnknown.
+| NChClose | NChCloseOk | NChOpenOk | NFlow | NUnknown
+| NFaultRecv      (* channel 0 only: the peer closes / resets the socket (recv fails) *)
+| NFaultSend      (* channel 0 only: the next socket write fails (EPIPE) *)
+| NFaultPoll.     (* channel 0 only: the socket poll raises *)
 Definition fname_eqb (a b : fname) : bool :=
   match a, b with
   | NDeclareOk, NDeclareOk | NBindOk, NBindOk | NQosOk, NQosOk | NSelectOk, NSelectOk
   | NTxOk, NTxOk | NConsumeOk, NConsumeOk | NCancelOk, NCancelOk | NGetOk, NGetOk
   | NGetEmpty, NGetEmpty | NHeader, NHeader | NBody, NBody | NDeliver, NDeliver
   | NReturn, NReturn | NAck, NAck | NNack, NNack | NCancel, NCancel | NChClose, NChClose
-  | NChCloseOk, NChCloseOk | NChOpenOk, NChOpenOk | NFlow, NFlow | NUnknown, NUnknown => true
+  | NChCloseOk, NChCloseOk | NChOpenOk, NChOpenOk | NFlow, NFlow | NUnknown, NUnknown
+  | NFaultRecv, NFaultRecv | NFaultSend, NFaultSend | NFaultPoll, NFaultPoll => true
   | _, _ => false
   end.
 
@@ -47,7 +51,8 @@ Definition oname_eqb (a b : oname) : bool :=
   | WChOpen, WChOpen | WFlowOk, WFlowOk | WConnClose, WConnClose => true
   | _, _ => false
   end.
-Record oframe := { o_chan : nat; o_name : oname; o_str : bytes }.
+Record oframe := { o_chan : nat; o_name : oname; o_str : bytes;
+                   o_sent : bool }.   (* false: the socket refused it *)
 
 (* ---------- errors ---------- *)
 Inductive ekind := EConn | EChan | EMsg.
@@ -85,7 +90,8 @@ Record sys := {
   s_uuid : nat;                            (* fresh uuid counter *)
   s_out : list oframe;                     (* frames written, newest first *)
   s_io : bool;                             (* socket open and reader thread running *)
-  s_in : list (nat * frame)                (* frames read so far, newest first *)
+  s_in : list (nat * frame);               (* frames read so far, newest first *)
+  s_sendfail : bool                        (* the socket will refuse the next write *)
 }.
 
 Definition new_chan : chan :=
@@ -106,10 +112,29 @@ Fixpoint set_chan (l : list (nat * chan)) (c : nat) (v : chan) : list (nat * cha
 Definition upd (s : sys) (c : nat) (v : chan) : sys :=
   {| s_conn := s_conn s; s_cerrs := s_cerrs s;
      s_chans := match get_chan (s_chans s) c with Some _ => set_chan (s_chans s) c v | None => s_chans s end;
-     s_uuid := s_uuid s; s_out := s_out s; s_io := s_io s; s_in := s_in s |}.
+     s_uuid := s_uuid s; s_out := s_out s; s_io := s_io s; s_in := s_in s; s_sendfail := s_sendfail s |}.
+(* IO.write_to_socket: the frame is handed to the socket; if the socket refuses,
+   an AMQPConnectionError is recorded and the caller is not told *)
 Definition write (s : sys) (c : nat) (n : oname) (str : bytes) : sys :=
-  {| s_conn := s_conn s; s_cerrs := s_cerrs s; s_chans := s_chans s; s_uuid := s_uuid s;
-     s_out := {| o_chan := c; o_name := n; o_str := str |} :: s_out s; s_io := s_io s; s_in := s_in s |}.
+  {| s_conn := s_conn s;
+     s_cerrs := if s_sendfail s then s_cerrs s ++ [{| e_kind := EConn; e_code := None |}] else s_cerrs s;
+     s_chans := s_chans s; s_uuid := s_uuid s;
+     s_out := {| o_chan := c; o_name := n; o_str := str; o_sent := negb (s_sendfail s) |} :: s_out s;
+     s_io := s_io s; s_in := s_in s; s_sendfail := s_sendfail s |}.
+
+(* Connection.write_frames: all frames of one call go to the socket as ONE buffer:
+   they are accepted or refused together *)
+Definition write_many (s : sys) (c : nat) (ws : list (oname * bytes)) : sys :=
+  match ws with
+  | [] => s
+  | _ =>
+    {| s_conn := s_conn s;
+       s_cerrs := if s_sendfail s then s_cerrs s ++ [{| e_kind := EConn; e_code := None |}] else s_cerrs s;
+       s_chans := s_chans s; s_uuid := s_uuid s;
+       s_out := rev (map (fun w => {| o_chan := c; o_name := fst w; o_str := snd w;
+                                      o_sent := negb (s_sendfail s) |}) ws) ++ s_out s;
+       s_io := s_io s; s_in := s_in s; s_sendfail := s_sendfail s |}
+  end.
 
 (* small dict helpers *)
 Fixpoint req_get (l : list (fname * nat)) (n : fname) : option nat :=
@@ -204,10 +229,22 @@ Definition on_frame0 (s : sys) (f : frame) : sys :=
     {| s_conn := CLOSED;
        s_cerrs := if f_num f =? 200 then s_cerrs s
                   else s_cerrs s ++ [{| e_kind := EConn; e_code := Some (f_num f) |}];
-       s_chans := s_chans s; s_uuid := s_uuid s; s_out := s_out s; s_io := s_io s; s_in := s_in s |}
+       s_chans := s_chans s; s_uuid := s_uuid s; s_out := s_out s; s_io := s_io s; s_in := s_in s;
+       s_sendfail := s_sendfail s |}
   | NChCloseOk =>
     {| s_conn := CLOSED; s_cerrs := s_cerrs s; s_chans := s_chans s; s_uuid := s_uuid s;
-       s_out := s_out s; s_io := s_io s; s_in := s_in s |}
+       s_out := s_out s; s_io := s_io s; s_in := s_in s; s_sendfail := s_sendfail s |}
+  | NFaultRecv =>     (* IO._receive: error recorded, the reader thread stops *)
+    {| s_conn := s_conn s; s_cerrs := s_cerrs s ++ [{| e_kind := EConn; e_code := None |}];
+       s_chans := s_chans s; s_uuid := s_uuid s; s_out := s_out s; s_io := false; s_in := s_in s;
+       s_sendfail := s_sendfail s |}
+  | NFaultPoll =>     (* Poller.is_ready: error recorded, the reader goes on *)
+    {| s_conn := s_conn s; s_cerrs := s_cerrs s ++ [{| e_kind := EConn; e_code := None |}];
+       s_chans := s_chans s; s_uuid := s_uuid s; s_out := s_out s; s_io := s_io s; s_in := s_in s;
+       s_sendfail := s_sendfail s |}
+  | NFaultSend =>     (* nothing happens until somebody writes *)
+    {| s_conn := s_conn s; s_cerrs := s_cerrs s; s_chans := s_chans s; s_uuid := s_uuid s;
+       s_out := s_out s; s_io := s_io s; s_in := s_in s; s_sendfail := true |}
   | _ => s
   end.
 
@@ -215,7 +252,7 @@ Definition deliver (s : sys) (cf : nat * frame) : sys :=
   if negb (s_io s) then s      (* socket closed, reader stopped: nothing is read any more *)
   else
     let s' := {| s_conn := s_conn s; s_cerrs := s_cerrs s; s_chans := s_chans s; s_uuid := s_uuid s;
-                 s_out := s_out s; s_io := s_io s; s_in := cf :: s_in s |} in
+                 s_out := s_out s; s_io := s_io s; s_in := cf :: s_in s; s_sendfail := s_sendfail s |} in
     if Nat.eqb (fst cf) 0 then on_frame0 s' (snd cf) else on_frame s' (fst cf) (snd cf).
 
 Definition deliver_all (s : sys) (l : list (nat * frame)) : sys := fold_left deliver l s.
@@ -230,11 +267,11 @@ Definition conn_check (s : sys) : sys * res unit :=
   match s_cerrs s, s_conn s with
   | [], CLOSED =>
     let e := {| e_kind := EConn; e_code := None |} in
-    ({| s_conn := CLOSED; s_cerrs := [e]; s_chans := []; s_uuid := s_uuid s; s_out := s_out s; s_io := false; s_in := s_in s |},
+    ({| s_conn := CLOSED; s_cerrs := [e]; s_chans := []; s_uuid := s_uuid s; s_out := s_out s; s_io := false; s_in := s_in s; s_sendfail := s_sendfail s |},
      Raise e)
   | [], _ => (s, Ok tt)
   | e :: _, _ =>
-    ({| s_conn := CLOSED; s_cerrs := s_cerrs s; s_chans := []; s_uuid := s_uuid s; s_out := s_out s; s_io := false; s_in := s_in s |},
+    ({| s_conn := CLOSED; s_cerrs := s_cerrs s; s_chans := []; s_uuid := s_uuid s; s_out := s_out s; s_io := false; s_in := s_in s; s_sendfail := s_sendfail s |},
      Raise e)
   end.
 
@@ -272,7 +309,8 @@ Record snap := {
   sn_conn : st; sn_cerrs : list err; sn_registered : bool
 }.
 Record opobs := { ob_res : result; ob_snap : snap; ob_written : list oframe;
-                  ob_delivered : list (nat * frame) }.   (* frames the reader handled during the step *)
+                  ob_delivered : list (nat * frame);     (* frames the reader handled during the step *)
+                  ob_late : bool }.   (* a transport fault was reported later than the polling slack allows *)
 
 (* ---------- waiting: one scripted batch of inbound frames per sleep ---------- *)
 Definition script := list (list (nat * frame)).
@@ -316,7 +354,7 @@ Definition register (s : sys) (c : nat) (v : chan) (names : list fname) : sys * 
                        (resp_set (c_resp v) u []) in
   ({| s_conn := s_conn s; s_cerrs := s_cerrs s;
       s_chans := match get_chan (s_chans s) c with Some _ => set_chan (s_chans s) c v' | None => s_chans s end;
-      s_uuid := S u; s_out := s_out s; s_io := s_io s; s_in := s_in s |}, v', u).
+      s_uuid := S u; s_out := s_out s; s_io := s_io s; s_in := s_in s; s_sendfail := s_sendfail s |}, v', u).
 
 Definition remove_uuid (s : sys) (c : nat) (v : chan) (u : nat) : sys * chan :=
   let v' := with_rpc v (req_del_uuid (c_req v) u) (resp_del (c_resp v) u) in
@@ -385,7 +423,7 @@ Definition chan_write (s : sys) (c : nat) (v : chan) (ws : list (oname * bytes))
   let '(s1, v1, r) := chan_check s c v in
   match r with
   | Raise e => (s1, v1, Raise e)
-  | Ok _ => (fold_left (fun s w => write s c (fst w) (snd w)) ws s1, v1, Ok tt)
+  | Ok _ => (write_many s1 c ws, v1, Ok tt)
   end.
 
 (* Basic._get_content_body *)
@@ -705,7 +743,7 @@ Definition do_step (s : sys) (objs : list (nat * chan)) (carry : script) (stp : 
                else cf)) (st_script stp) in
   let sc := carry ++ own in
   let s0 := {| s_conn := s_conn s; s_cerrs := s_cerrs s; s_chans := s_chans s;
-               s_uuid := s_uuid s; s_out := []; s_io := s_io s; s_in := [] |} in
+               s_uuid := s_uuid s; s_out := []; s_io := s_io s; s_in := []; s_sendfail := s_sendfail s |} in
   let '(s1, v1, r, rest) :=
       match st_op stp with
       | ARpc k =>
@@ -743,8 +781,8 @@ Definition do_step (s : sys) (objs : list (nat * chan)) (carry : script) (stp : 
                | _, _ => rest
                end in
   (s1, set_chan objs1 c v2, rest',
-   {| ob_res := r; ob_snap := snapshot s1 c v2; ob_written := rev (s_out s1);
-      ob_delivered := rev (s_in s1) |}).
+   {| ob_res := r; ob_snap := snapshot s1 c v2; ob_written := filter o_sent (rev (s_out s1));
+      ob_delivered := rev (s_in s1); ob_late := false |}).
 
 Fixpoint run_steps (s : sys) (objs : list (nat * chan)) (carry : script) (steps : list step)
   : list opobs :=
@@ -756,7 +794,7 @@ Fixpoint run_steps (s : sys) (objs : list (nat * chan)) (carry : script) (steps 
 
 Definition init_sys (nchan : nat) : sys :=
   {| s_conn := OPEN; s_cerrs := [];
-     s_chans := map (fun k => (k, new_chan)) (seq 1 nchan); s_uuid := 0; s_out := []; s_io := true; s_in := [] |}.
+     s_chans := map (fun k => (k, new_chan)) (seq 1 nchan); s_uuid := 0; s_out := []; s_io := true; s_in := []; s_sendfail := false |}.
 
 Definition chan_model (i : nat * list step) : list opobs :=
   run_steps (init_sys (fst i)) (map (fun k => (k, new_chan)) (seq 1 (fst i))) [] (snd i).
@@ -782,9 +820,11 @@ Definition snap_eqb (a b : snap) : bool :=
   Bool.eqb (sn_confirm a) (sn_confirm b) && st_eqb (sn_conn a) (sn_conn b) &&
   list_eqb err_eqb (sn_cerrs a) (sn_cerrs b) && Bool.eqb (sn_registered a) (sn_registered b).
 Definition oframe_eqb (a b : oframe) : bool :=
-  Nat.eqb (o_chan a) (o_chan b) && oname_eqb (o_name a) (o_name b) && bytes_eqb (o_str a) (o_str b).
+  Nat.eqb (o_chan a) (o_chan b) && oname_eqb (o_name a) (o_name b) && bytes_eqb (o_str a) (o_str b) &&
+  Bool.eqb (o_sent a) (o_sent b).
 Definition opobs_eqb (a b : opobs) : bool :=
   result_eqb (ob_res a) (ob_res b) && snap_eqb (ob_snap a) (ob_snap b) &&
   list_eqb oframe_eqb (ob_written a) (ob_written b) &&
-  list_eqb (pair_eqb Nat.eqb frame_eqb) (ob_delivered a) (ob_delivered b).
+  list_eqb (pair_eqb Nat.eqb frame_eqb) (ob_delivered a) (ob_delivered b) &&
+  Bool.eqb (ob_late a) (ob_late b).
 Definition chan_obs_eqb : list opobs -> list opobs -> bool := list_eqb opobs_eqb.
